@@ -14,3 +14,5 @@ import PV.Properties.C07
 import PV.Model.Gate
 import PV.Generated.GateFacts
 import PV.Properties.C19
+import PV.Model.Summary
+import PV.Model.CFG
